@@ -7,11 +7,11 @@ From Coq Require Import List NArith.
 Local Open Scope string_scope.
 Local Open Scope list_scope.
 Import ListNotations.
-From UV Require Import Py.Val Py.Str Py.UrlLib Ural.Utils Ural.Normalize Ural.SuffixTrie Proofs.NormFacts.
+From UV Require Import Py.Val Py.Str Py.UrlLib Ural.Utils Ural.Canonicalize Ural.Normalize Ural.SuffixTrie Proofs.NormFacts.
 
 Theorem C07_get_normalized_hostname : forall e u amp,
   get_normalized_hostname e u amp false =
-  match urlsplit e (ensure_protocol (strip u) (lit "http")) with
+  match urlsplit e (ensure_protocol (strip (strip_controls u)) (lit "http")) with
   | Exc ValueError => Ok None
   | Exc x => Exc x
   | Ok sp => match hostname sp with
@@ -23,7 +23,7 @@ Proof. exact get_normalized_hostname_spec. Qed.
 
 Theorem C07_get_fingerprinted_hostname : forall e t u ss,
   get_fingerprinted_hostname e t u false ss =
-  match urlsplit e (ensure_protocol (strip (lower u)) (lit "http")) with
+  match urlsplit e (ensure_protocol (strip (strip_controls (lower u))) (lit "http")) with
   | Exc ValueError => Ok None
   | Exc x => Exc x
   | Ok sp => match hostname sp with
